@@ -16,7 +16,7 @@ import MySensors.Driver.Wire
 import MySensors.Model.Persist
 import MySensors.Model.Sched
 
-namespace MySensors.Driver
+namespace MySensors.Driver.P
 open MySensors MySensors.Persist MySensors.Fs MySensors.Sched
 
 /-! ### C11 -/
@@ -172,6 +172,11 @@ def schedRun (fl : Flavour) : Sys Int → List String → Option (List String)
       else (parseOutcome s.cur w).map fun o => tick fl o s
     let rest ← schedRun fl s' ws
     some (showSys s' :: rest)
+
+end MySensors.Driver.P
+
+namespace MySensors.Driver
+open MySensors MySensors.Persist MySensors.Fs MySensors.Sched MySensors.Driver.P
 
 def persistCmd (cmd : String) (args : List String) : Option String :=
   match cmd, args with
